@@ -345,6 +345,7 @@ def main(a):
     known = load_known()
     violations = []     # (harness, fs, obligation, kind)
     other_prop = []     # L2 failures that belong to another property's check
+    n_info = n_info_sat = 0
     undecided = []
     known_hit = []
     n_checks = n_ok = n_unreach = 0
@@ -356,7 +357,12 @@ def main(a):
         succ = [c for c in r["checks"] if c["status"] == "SUCCESS"]
         unreach = [c for c in r["checks"] if c["status"] == "UNREACHABLE"]
         undet = [c for c in r["checks"] if c["status"] == "UNDETERMINED"]
-        covers = [c for c in r["checks"] if c["status"] in ("SATISFIED", "UNSATISFIABLE")]
+        covers_all = [c for c in r["checks"] if c["status"] in ("SATISFIED", "UNSATISFIABLE")]
+        # `info::` covers are measurements (e.g. did the armed fault fire in this scenario?), not vacuity guards
+        info = [c for c in covers_all if c["description"].startswith("info::")]
+        covers = [c for c in covers_all if not c["description"].startswith("info::")]
+        n_info_sat += sum(1 for c in info if c["status"] == "SATISFIED")
+        n_info += len(info)
         if h.role == "canary":
             canary_ok = r["status"] == "FAILED" and any("canary" in c["description"] for c in failed)
             continue
@@ -551,6 +557,8 @@ def main(a):
         "undecided": undecided,
         "failures_attributed_to_other_properties": other_prop[:40],
         "l2_instances": n_l2,
+        "fault_instances": n_info,
+        "fault_instances_in_which_the_fault_fired_and_was_caught": n_info_sat,
         "l2_instances_available_in_tier": n_l2_total if n_l2 else 0,
         "known_findings_hit": [kf["what"] for kf, _ in known_hit],
         "repo_head": subprocess.run(["git", "-C", kanirun.REAL_REPO, "rev-parse", "HEAD"], stdout=subprocess.PIPE, text=True).stdout.strip(),
